@@ -30,7 +30,7 @@ def _sym(x):
 # ---------------------------------------------------------------------------------------------- numpy
 trusted('np.floor/np.ceil = mathematical floor/ceiling; int(x) truncates toward zero; float(n) is the identity on reals')
 trusted('np.copysign(1, x) = +1 if x >= 0 else -1 (x = -0.0 outside the model)')
-trusted('np.isclose(x, 0.0) <=> |x| <= 1e-8 (numpy default atol, b = 0)')
+trusted('np.isclose(a, b) <=> |a - b| <= atol + rtol*|b| with numpy defaults rtol=1e-5, atol=1e-8 (so isclose(x, 0.0) <=> |x| <= 1e-8)')
 trusted('np.isnan reads the NaN flag of a data-handler price; arithmetic on a possibly-NaN value is a definedness obligation')
 trusted('builtin round(x) / round(x, 2): uninterpreted R0/R2 with |R0(x)-x| <= 1/2, R0 integer-valued, |R2(x)-x| <= 0.005, both odd functions')
 trusted('sum() over a finite map = SUM(dom, g) with the definitional unfolding SUM(empty) = 0, SUM(D + {k}, g) = SUM(D, g) + g(k) for k not in D, instantiated by the engine')
@@ -87,11 +87,16 @@ class NpShim:
     @staticmethod
     def isclose(a, b, **kw):
         if isinstance(a, SymNum) or isinstance(b, SymNum):
-            if kw or not (isinstance(b, (int, float)) and b == 0):
-                raise Unmodelled('np.isclose other than isclose(x, 0.0)')
-            t = lift(a)
-            eps = z3.RealVal('1/100000000')
-            return SymBool(z3.And(t <= eps, -t <= eps))
+            if set(kw) - {'rtol', 'atol'} or any(isinstance(v, SymNum) for v in kw.values()):
+                raise Unmodelled('np.isclose with symbolic tolerances / equal_nan')
+            # numpy: |a - b| <= atol + rtol * |b|   (defaults rtol=1e-05, atol=1e-08)
+            ta, tb = lift(a), lift(b)
+            atol = z3.RealVal(repr(float(kw.get('atol', 1e-08))))
+            rtol = z3.RealVal(repr(float(kw.get('rtol', 1e-05))))
+            d = ta - tb
+            absb = z3.If(tb >= 0, tb, -tb)
+            bound = z3.simplify(atol + rtol * absb)
+            return SymBool(z3.And(d <= bound, -d <= bound))
         return _np.isclose(a, b, **kw)
 
 
